@@ -179,7 +179,7 @@ def run_stream(res, work, tier, seed):
     trace = core.drive("stream", runs, work, "stream")
     tv = tlc.validate_trace("StreamTrace", "StreamTrace.cfg", trace, os.path.join(work, "tv"), timeout=3000)
     by_id = {r["run"]: r for r in runs}
-    res.add_tv(tv, by_id, "stream", "enumerated configurations + seeded streams")
+    res.add_tv(tv, by_id, "stream", "enumerated configurations + seeded streams", crash_props=("C06", "C08", "C05"))
     # coverage statistic: distinct runs whose stream has a stuff sequence split across two reads
     nontrivial = set()
     for r in runs:
@@ -201,4 +201,4 @@ def replay(rep, work):
     run = rep["run"]
     trace = core.drive("stream", [run], work, "replay")
     tv = tlc.validate_trace("StreamTrace", "StreamTrace.cfg", trace, os.path.join(work, "tv"))
-    return tv["viol"]
+    return tv["viol"] + core.crash_viols(("C06", "C08", "C05"))
